@@ -165,7 +165,13 @@ fn run_limited(
     executor.update_program(program_update);
     let process_id = 0;
     executor.spawn_process(process_id, Some(entry), vec![], quiver_core::value::Value::nil(), vec![], false)?;
+    // a wall-clock guard on top of the unit budget: a miscompiled loop may also GROW its state with every
+    // iteration (locals that are never cut back), and a million units of that take minutes
+    let started = std::time::Instant::now();
     for _ in 0..max_rounds {
+        if started.elapsed() > Duration::from_secs(5) {
+            break;
+        }
         let (_did_work, _action) = executor.step(1000, 0);
         let process = executor.get_process(process_id).ok_or(quiver_core::Error::InvalidArgument("Process disappeared".to_string()))?;
         if let Some(result) = &process.result {
@@ -817,6 +823,25 @@ fn main() {
                 }
                 // the meaning function of the correctness theorem vs the value the real VM computes
                 let meaning = ck.model.ask(&format!("({ereq} {})", case.chains.as_deref().unwrap_or("")));
+                // programs with tail calls first go through the worker thread (20 s timeout): a VM defect
+                // can make a run hang INSIDE one Executor::step call, where no step budget helps
+                if with_tail {
+                    if ck.imp.dead {
+                        continue;
+                    }
+                    if let Impl::Timeout = ck.imp.run(&src) {
+                        ev.violation(
+                            "fragment1 kind=impl-timeout",
+                            &format!("the real VM does not finish `{src}` within 20 s; the meaning function of the fragment theorem gives `{}`", meaning.trim()),
+                            json!({"source": src, "model": meaning.trim(), "real": "timeout"}),
+                            true,
+                        );
+                        // the runaway run cannot be stopped (a thread), and it may grow without bound: report
+                        // and leave at once, as the end of `main` does
+                        let code = ev.finish();
+                        std::process::exit(code);
+                    }
+                }
                 let bc = unit.program.to_bytecode(Some(unit.entry));
                 let real_value = match qverif::catch(|| run_limited(bc, &b, 1000)) {
                     Ok(Ok(Some((v, _)))) => format!("ok {}", frag1::show_value(&v)),
